@@ -209,6 +209,35 @@ def unrollOk (nat : Unroll.Natives) (inp out : List PGate) : Bool :=
     inp.any fun h => !h.meas && samePair g.qs h.qs) &&
   out.filter (·.meas) == inp.filter (·.meas)
 
+/-! ### the unroller INSIDE the model: C10's dispatch on table data -/
+
+/-- shape property of a table's rows behind the locality of its calls: the qubit indices
+    of every template gate are pairwise distinct and no template is a measurement. -/
+def localRows (d : Unroll.TableData) : Bool :=
+  d.rows.all fun r => r.2.2.all fun x => decide x.qubits.Nodup && x.cls != Unroll.cM
+
+/-- Bool version of `TablesLocal` (QV/Proofs/PipelineUnroll.lean) on the data of the real
+    tables (driver command LOCAL, on every run, like C10's `closedCheck`). -/
+def localCheck (D : Unroll.TablesData) : Bool :=
+  localRows D.gpi2 && localRows D.u3 && localRows D.cz && localRows D.iswap &&
+  localRows D.opt && localRows D.cnot
+
+/-- what the derived unroller contract asks of the queue handed to the unroller:
+    measurements, and gates on at most two qubits whose pass-through classes (`I`,
+    `Align`) are native. -/
+def unrollInputOk (nat : Unroll.Natives) (inp : List PGate) : Bool :=
+  inp.all fun g => g.meas ||
+    (decide (g.qs.length ≤ 2) && (!Unroll.passThrough g.cls || Unroll.isNative nat g.cls))
+
+def PGate.ofU (x : Unroll.UGate) : PGate := ⟨x.cls, x.tag, x.qubits⟩
+
+/-- the unroller pass COMPUTED by C10's dispatch model (instead of taken as an oracle);
+    `none` = an exception, or a `controlled_by` gate in the result (never with real tables). -/
+def unrollDispatch (T : Unroll.Tables) (nat : Unroll.Natives) (fuel : Nat) (q : List PGate) :
+    Option (List PGate) :=
+  (Unroll.unroll T nat fuel (q.map PGate.toU)).bind fun out =>
+    if out.all (fun x => !x.cb) then some (out.map PGate.ofU) else none
+
 /-! ### `Passes.__call__` -/
 
 inductive Pass where
@@ -244,5 +273,96 @@ def runPasses (d : Device) : PState → List Pass → Option PState
 /-- `Passes(...)(circuit)`. -/
 def passesCall (d : Device) (c : Circ) (ps : List Pass) : Option PState :=
   runPasses d ⟨c, none⟩ ps
+
+/-! ### validation of a whole run (what the driver evaluates on every recorded real run) -/
+
+/-- the validation of one pass's answer in the state it is given (`pre` and the modelled
+    star placer have no oracle; the star placer's loop needs the queue's wire indices in
+    range). -/
+def validPass (d : Device) (nat : Unroll.Natives) (s : PState) : Pass → Bool
+  | .pre => true
+  | .star => s.circ.queue.all fun g => g.qs.all fun i => decide (i < s.circ.nqubits)
+  | .placer (some w) => permOf d w
+  | .router (some (q, l)) => routeOk d s.circ q l
+  | .unroller (some q) => unrollOk nat s.circ.queue q
+  | _ => true
+
+/-- every answer along the run of an arbitrary pass list passes its validation. -/
+def validRun (d : Device) (nat : Unroll.Natives) : PState → List Pass → Bool
+  | _, [] => true
+  | s, p :: ps =>
+    validPass d nat s p &&
+    match runPass d s p with
+    | none => true
+    | some s' => validRun d nat s' ps
+
+/-! ### what a pass list establishes (folds over the list, any order, repetitions allowed) -/
+
+/-- after the list the circuit is placed (one device node per wire): every pass except the
+    unroller establishes or demands it. -/
+def placedAfter (b : Bool) : List Pass → Bool
+  | [] => b
+  | .unroller _ :: ps => placedAfter b ps
+  | _ :: ps => placedAfter true ps
+
+/-- after the list the circuit respects the connectivity: established by a router, kept by
+    padding (the identity on a placed circuit) and unrolling, lost by a placer. -/
+def connAfter (b : Bool) : List Pass → Bool
+  | [] => b
+  | .router _ :: ps => connAfter true ps
+  | .placer _ :: ps => connAfter false ps
+  | .star :: ps => connAfter false ps
+  | _ :: ps => connAfter b ps
+
+/-- after the list only native gates are left: established by the unroller, lost by a
+    router (it inserts SWAPs). -/
+def decAfter (b : Bool) : List Pass → Bool
+  | [] => b
+  | .unroller _ :: ps => decAfter true ps
+  | .router _ :: ps => decAfter false ps
+  | _ :: ps => decAfter b ps
+
+/-- the `final_layout` `Passes.__call__` returns: the last router's, `None` after a placer. -/
+def layoutAfter (l : Option (List Nat)) : List Pass → Option (List Nat)
+  | [] => l
+  | .router (some (_, l2p)) :: ps => layoutAfter (some l2p) ps
+  | .placer _ :: ps => layoutAfter none ps
+  | .star :: ps => layoutAfter none ps
+  | _ :: ps => layoutAfter l ps
+
+/-! ### pass OBJECTS: the attribute `connectivity` and its hand-over -/
+
+/-- the attribute `connectivity` of every pass object alive (`none` = Python `None`);
+    the identity of a pass object is its index. -/
+abbrev Store := List (Option Device)
+
+/-- one iteration of the loop of `Passes.__call__` on pass object `i`:
+    `transpiler_pass.connectivity = self.connectivity`, then the call, which reads the
+    attribute (the unroller has none and is called directly). -/
+def runPassObj (d : Device) (st : Store) (s : PState) (i : Nat) (p : Pass) : Option (PState × Store) :=
+  match p with
+  | .unroller _ => (runPass d s p).map fun s' => (s', st)
+  | _ =>
+    let st' := st.set i (some d)
+    match st'.getD i none with
+    | none => none
+    | some dev => (runPass dev s p).map fun s' => (s', st')
+
+def runPassesObj (d : Device) : Store → PState → List (Nat × Pass) → Option (PState × Store)
+  | st, s, [] => some (s, st)
+  | st, s, (i, p) :: ps => (runPassObj d st s i p).bind fun r => runPassesObj d r.2 r.1 ps
+
+/-- the variant "a pass that already has a connectivity keeps it" (NOT what qibo does;
+    used for a negative witness only). -/
+def runPassObjKeep (d : Device) (st : Store) (s : PState) (i : Nat) (p : Pass) : Option (PState × Store) :=
+  match p with
+  | .unroller _ => (runPass d s p).map fun s' => (s', st)
+  | _ =>
+    let st' := match st.getD i none with
+      | none => st.set i (some d)
+      | some _ => st
+    match st'.getD i none with
+    | none => none
+    | some dev => (runPass dev s p).map fun s' => (s', st')
 
 end QV.Pipe
